@@ -6,6 +6,10 @@ RootOne == {"h1"}
 RootBoth == {"h1", "h2"}
 Init2 == [h \in {"h1", "h2"} |-> IF h = "h1" THEN 1 ELSE 2]
 Init3 == [h \in {"h1", "h2", "h3"} |-> IF h = "h1" THEN 1 ELSE IF h = "h2" THEN 2 ELSE 1]
+QuotedOnly == {"quoted"}
+JoinStyles == {"angle", "mixed"}
+GenStyles == {"quoted"}
+AllStyles == {"quoted", "angle", "mixed", "mixed2"}
 V3 == 1..3
 V2 == 1..2
 =============================================================================
